@@ -336,6 +336,8 @@ func runC14(c *Check) {
 	c.ruleFreshMessageAfterTransmit("R10", "state.(*TxTracker).Check")
 	c.ruleRequestTimeOnlyWhenRequesting("R11")
 	c.ruleCleanupAlwaysForwards("R12")
+	c.ruleTxBodyAlwaysForwarded("R13")
+	c.ruleWiring("R14", c.constructorsIn("spynode", "handlers"))
 
 	// ---- R6 every filled getdata is transmitted
 	if fn := c.Fn("R6", "state.(*TxTracker).Check"); fn != nil {
